@@ -221,6 +221,10 @@ class Executor:
     def uf(self, name, *sorts):
         if name not in self._ufs:
             self._ufs[name] = z3.Function(name, *sorts)
+            if name == 'cfg_len':
+                # the length of a configured list / dict is never negative
+                x_ = z3.Int('x!cfglen')
+                self.global_axioms.append(z3.ForAll([x_], self._ufs[name](x_) >= 0, patterns=[self._ufs[name](x_)]))
         return self._ufs[name]
 
     def heap_get(self, st, key, sort=None):
